@@ -626,7 +626,8 @@ def pipeline_bad(p):
 
     n = p["n"]
     ang = p["angles"]
-    ops = [RY(float(a))(q) for q, a in enumerate(ang)]
+    # an angle of None leaves that qubit without any gate (register wider than the gates need)
+    ops = [RY(float(a))(q) for q, a in enumerate(ang) if a is not None]
     if p.get("entangle") and n > 1:
         ops += [CNOT(n - 1, 0), RX(0.37)(n - 1)]
     c = Circuit(ops, n_qubits=n)
@@ -659,7 +660,7 @@ def pipeline_bad(p):
                 if abs(est - e) > 1e-9:
                     return f"basis state {p['label']}: estimated <Z{s}> = {est} from samples {m.bitstrings[:2]} but exact = {e}"
             cnt = m.get_counts()
-            want = "".join("1" if abs(a - math.pi) < 1e-9 else "0" for a in ang)
+            want = "".join("1" if a is not None and abs(a - math.pi) < 1e-9 else "0" for a in ang)
             if dict(cnt) != {want: nsamp}:
                 return f"basis state {want}: counts {dict(cnt)}"
     return None
@@ -680,6 +681,13 @@ def circuits(n):
         out["chain"] = ry + [("CNOT", (0, 1)), ("CNOT", (1, 2)), ("RZ(v)", (0,)), ("RX(u)", (2,))]
     if n == 4:
         out["entangled"] = ry + [("CNOT", (3, 1)), ("RX(u)", (2,)), ("SWAP", (0, 3))]
+    # registers declared wider than the gates need: idle qubits after / before / between the used ones
+    if n == 2:
+        out["idle-tail"] = [("RY(t0)", (0,)), ("RX(u)", (0,))]
+        out["idle-head"] = [("RY(t1)", (1,))]
+    if n == 3:
+        out["idle-tail"] = [("RY(t0)", (0,)), ("RY(t1)", (1,)), ("CNOT", (1, 0))]
+        out["idle-middle"] = [("RY(t0)", (0,)), ("RY(t2)", (2,)), ("RX(u)", (2,))]
     return out
 
 
@@ -742,6 +750,9 @@ def instances(tier, seed):
         items.append(("counts", {"n": n, "label": f"count strings width {n}"}))
         for bits in itertools.product((0, 1), repeat=n):
             items.append(("pipeline", {"n": n, "angles": [math.pi if b else 0.0 for b in bits], "basis": True, "label": f"basis |{''.join(map(str, bits))}>"}))
+        for used in range(1, n):  # gates on the first `used` qubits only, and on the last `used` only
+            items.append(("pipeline", {"n": n, "angles": [math.pi] * used + [None] * (n - used), "basis": True, "label": f"basis, gates on first {used} of {n} qubits"}))
+            items.append(("pipeline", {"n": n, "angles": [None] * (n - used) + [math.pi] * used, "basis": True, "label": f"basis, gates on last {used} of {n} qubits"}))
         for k in range(2 if tier == "quick" else 10):
             items.append(("pipeline", {"n": n, "angles": [round(rng.uniform(0.2, 2.9), 3) for _ in range(n)], "entangle": bool(k % 2), "seed": rng.randrange(1000), "label": f"seeded angles #{k} n={n}"}))
     return items
